@@ -85,6 +85,14 @@ pub fn c06_complements() {
 
 fn ctx_label(kind_data: bool, map: usize, present: bool) -> Context {
     let mut ctx = mk_ctx();
+    // a procedure may start exactly where a label points (label directly before `def`, or first in a body)
+    vsym!(w_fn_present: bool);
+    vsym!(w_fn_pos: u16);
+    #[cfg(kani)]
+    ctx.fn_map.items.reserve(2);
+    if w_fn_present {
+        ctx.fn_map.insert("f".to_owned(), w_fn_pos as usize);
+    }
     if present {
         let t = if kind_data { LabelType::DATA } else { LabelType::CODE };
         ctx.label_map.insert("t".to_owned(), crate::util::preprocessor_util::Label::new(t, 0, map));
@@ -120,6 +128,7 @@ pub fn c06_combiner() {
         }
     }
     vassert!("C06.combiner.registers_and_flags", regs(&vm) == pre);
+    vcover!("C06.combiner.cover.label_at_procedure_start", w_kind == 0 && ctx.fn_map.get("f") == Some(&(w_map as usize)));
     std::mem::forget(r);
     done_ctx(ctx);
     done(vm);
